@@ -43,6 +43,9 @@ TEMPLATES = {
     "nopasv": LOGIN + [["cmd", "PWD"], ["quit"]],
     "pipe_pasv2": LOGIN + [["pipeline", ["PASV", "PASV"]], ["quit"]],
     "pipe_pasv_epsv": LOGIN + [["pipeline", ["EPSV", "PASV", "EPSV"]], ["data"], ["xfer", "RETR", "/f.bin"], ["quit"]],
+    "relogin_pasv": LOGIN + [["pasv"], ["login"], ["pasv"], ["quit"]],
+    "relogin_epsv_data": LOGIN + [["epsv"], ["data"], ["login"], ["epsv"], ["data"], ["xfer", "RETR", "/f.bin"], ["login"], ["quit"]],
+    "relogin_cut": LOGIN + [["pasv"], ["login"], ["cut", "rst"]],
     "pipe_pasv_cut": LOGIN + [["pipeline", ["PASV", "EPSV"]], ["cut", "rst"]],
 }
 
@@ -313,13 +316,13 @@ def gen_cases(tier, seed):
                 "scripts": [LOGIN + [[cmd], ["sleep", 0.1], ["quit"]], LOGIN + [[cmd], ["quit"]],
                             LOGIN + [[cmd], ["cmd", "PWD"], ["quit"]]]}})
     # commands sent without waiting for the replies (two listener start-ups of one session in flight at once)
-    for name in ("pipe_pasv2", "pipe_pasv_epsv", "pipe_pasv_cut"):
+    for name in ("pipe_pasv2", "pipe_pasv_epsv", "pipe_pasv_cut", "relogin_pasv", "relogin_epsv_data", "relogin_cut"):
         for n in (1, 2, 3):
             cases.append({"kind": "single", "seed": seed, "plan": {"n": n, "scripts": [TEMPLATES[name]], "yields": [1, 1]}})
             cases.append({"kind": "single", "seed": seed, "plan": {"n": n, "scripts": [TEMPLATES[name], TEMPLATES["hold"]],
                                                                    "offsets": [0.003, 0], "yields": [2, 1]}})
     # exhaustive cut positions per script
-    cut_scripts = ["retr", "epsv2", "two"] if tier == "quick" else ["retr", "epsv2", "two", "hold", "pasv_fincut"]
+    cut_scripts = ["retr", "epsv2", "two"] if tier == "quick" else ["retr", "epsv2", "two", "hold", "pasv_fincut", "relogin_pasv", "relogin_epsv_data"]
     for name in cut_scripts:
         for n in ([1, 2] if tier == "quick" else [1, 2, 3]):
             for zl in ([False] if tier == "quick" else [False, True]):
